@@ -142,6 +142,11 @@ func (vars *Vars) Hash() (uint64, error) {
 	// The order in which variables were set is not part of the identity
 	m := make(map[string]Var, vars.Len())
 	for k, v := range vars.All() {
+		// The name by which the task was called is not a variable passed into
+		// it: a call through an alias is the same call
+		if k == "ALIAS" {
+			continue
+		}
 		m[k] = v
 	}
 	return hashstructure.Hash(m, hashstructure.FormatV2, nil)
